@@ -74,7 +74,7 @@ theorem upMask_spec {nas : Nas} {sedn : Nat} {usetdn : List Row} {dnids : List N
         rw [hu] at h
         simp only [bind, Except.bind] at h
         split at h
-        · cases h
+        · split at h <;> cases h
         · rename_i hlen
           split at h
           · cases h
